@@ -77,7 +77,18 @@ func gz(b []byte) []byte {
 	return buf.Bytes()
 }
 
+// c20Conf is a server configuration and page URL other than the default one.
+type c20Conf struct {
+	name string
+	conf proxy.Config
+	page string
+}
+
 func c20Check(c *Ctx, body []byte, useGzip bool, desc map[string]any) {
+	c20CheckWith(c, body, useGzip, desc, nil)
+}
+
+func c20CheckWith(c *Ctx, body []byte, useGzip bool, desc map[string]any, cf *c20Conf) {
 	hdr := http.Header{"Content-Type": {"text/html"}}
 	wire := body
 	if useGzip {
@@ -95,10 +106,31 @@ func c20Check(c *Ctx, body []byte, useGzip bool, desc map[string]any) {
 	var tag string
 	var err error
 	sig := map[string]any{"body": desc, "gzip": useGzip}
+	if cf != nil {
+		sig["configuration"] = cf.name
+	}
 	bad := func(pred, what string) {
 		c.Run.Violate(ev.Violation{Pred: pred, Sig: sig, What: what, Replay: map[string]any{"body_hex": fmt.Sprintf("%x", clipBytes(body)), "body_len": len(body), "desc": desc, "gzip": useGzip}})
 	}
-	if p := protect(func() { out, outHdr, cl, tag, err = proxy.VerifFilterHTML(wire, hdr) }); p != nil {
+	if p := protect(func() {
+		if cf == nil {
+			out, outHdr, cl, tag, err = proxy.VerifFilterHTML(wire, hdr)
+		} else {
+			out, outHdr, cl, tag, err = proxy.VerifFilterHTMLWith(cf.conf, cf.page, wire, hdr)
+			// the tag is text; the body is bytes of an unknown 8-bit charset: every character of the tag up to U+00FF is one byte
+			var tb []byte
+			for _, r := range tag {
+				if r > 0xFF {
+					panic(HarnessError("tag with a character above U+00FF: " + tag))
+				}
+				tb = append(tb, byte(r))
+			}
+			tag = string(tb)
+		}
+	}); p != nil {
+		if he, ok := p.(HarnessError); ok {
+			panic(he)
+		}
 		bad("no-crash", fmt.Sprintf("filterHTML panics on %v: %v", desc, p))
 		return
 	}
@@ -304,6 +336,28 @@ func init() {
 			}
 		}
 		c20Check(c, nil, false, map[string]any{"kind": "empty"})
+		// other server configurations and page URLs (the tag then holds characters that are not ASCII; the
+		// content-script compression switch is none of filterHTML's business): a marker early, at the window edge, none
+		confs := []c20Conf{
+			{"page on a host name with non-ASCII letters", proxy.Config{InjectionHost: "injections.verif.test"}, "http://b\u00fccher.example/"},
+			{"injection host with non-ASCII letters", proxy.Config{InjectionHost: "injections.caf\u00e9.example"}, "http://example.org/"},
+			{"CompressContentScript", proxy.Config{InjectionHost: "injections.verif.test", CompressContentScript: true}, "http://example.org/"},
+			{"non-ASCII path and query", proxy.Config{InjectionHost: "injections.verif.test"}, "http://example.org/caf\u00e9?q=\u00fc"},
+		}
+		var confBodies [][]byte
+		for _, pre := range []string{"", "<html>", "\xe9\xff\x80<html>\x00", strings.Repeat("a", 16370), strings.Repeat("\xe9", 20) + strings.Repeat("a", 16380)} {
+			for _, mk := range []string{"</head>", "<SCRIPT src=x>", "<link>", ""} {
+				confBodies = append(confBodies, []byte(pre+mk+"<body>\xfc\xe9</body>"))
+			}
+		}
+		for ci := range confs {
+			for bi, b := range confBodies {
+				for _, g := range []bool{false, true} {
+					c20CheckWith(c, b, g, map[string]any{"kind": "configuration", "body": bi}, &confs[ci])
+					evals++
+				}
+			}
+		}
 		evals++
 		c.Run.Set("token_sequences", int64(len(seqs)))
 		c.Run.Set("window_cases", int64(len(wcases)))
